@@ -1,16 +1,20 @@
 (* C11 -- Each identity lists exactly its transitive derivations, once, in fixed order.
    Only statements, closed by [exact], and non-vacuity examples.
 
-   [resolve_identities om o2 o3 sc] (Model/Identity.v) is the model of Modules.resolveIdentities on schema sc:
-   om, o2, o3 are the iteration orders of the three loops over Go maps (ms.Modules, and the identity
-   dictionary twice).  Its result r holds the dictionary [r_dict r], the Values list of every identity
-   [r_values r key] and the errors [r_errors r].  The third loop is the real one: the closure of an identity
-   is computed from whatever Values lists it meets, some already replaced by their closure and some still
-   holding direct children only, depending on o3.
+   [resolve_identities o2 o3 sc] (Model/Identity.v) is the model of Modules.resolveIdentities on schema sc, in
+   which several revisions of one module may be loaded: o2, o3 are the iteration orders of the two loops over
+   the identity dictionary (a Go map); ms.Modules is walked in the order of its keys.  Its result r holds the
+   dictionary [r_dict r] (key "<owning module revision>:<name>" -> declaration), the owners table
+   [r_owners r], the Values list of every declaration [r_values r "<declaring (sub)module>:<name>"] and the
+   errors [r_errors r].  The third loop is the real one: the closure of an identity is computed from whatever
+   Values lists it meets, some already replaced by their closure and some still holding direct children only,
+   depending on o3; a submodule's identity filed under two revisions is closed twice.
 
-   [derived], [resolves], [declared], [consistent], [links_ok], [all_resolve], [acyclic], [sorted_keys],
-   [is_oracle] are in Spec/C11.v.  The graph is read off the dictionary, g = dict_get (r_dict r);
-   C11_dictionary says which function of the schema that is. *)
+   [derived], [resolves], [declares], [filed], [consistent], [links_ok], [all_resolve], [acyclic],
+   [sorted_keys], [is_oracle] are in Spec/C11.v; [wf_schema] (no two loaded nodes of one kind, name and
+   revision: what Modules.add enforces) in Proofs/IdentityProofs.v.  The graph is read off the dictionary and
+   the owners table, g = dict_get (r_dict r), ow = owners_get (r_owners r); C11_dictionary says which
+   function of the schema the dictionary is. *)
 From Coq Require Import Ascii String List Bool Arith Relations Permutation.
 From GY Require Import Model.Identity Spec.C11 Proofs.IdentityProofs.
 Import ListNotations.
@@ -19,14 +23,15 @@ Local Open Scope list_scope.
 
 (* ------------------------------------------------------------------ termination *)
 
-(* T0: for every schema (cyclic derivations, dangling bases, anything) and every iteration order, the
-   resolver terminates: the fuel given to addChildren, number of identities + 1, is never exhausted. *)
-Theorem C11_terminates : forall sc om o2 o3, is_oracle o2 -> is_oracle o3 ->
-  exists r, resolve_identities om o2 o3 sc = Some r.
+(* T0: for every schema (cyclic derivations, dangling bases, several revisions, anything) and every iteration
+   order, the resolver terminates: the fuel given to addChildren, number of dictionary entries + 1, is never
+   exhausted. *)
+Theorem C11_terminates : forall sc o2 o3, is_oracle o2 -> is_oracle o3 ->
+  exists r, resolve_identities o2 o3 sc = Some r.
 Proof. exact resolve_total. Qed.
 
-(* the reason: over any Values table whose entries are identities of the dictionary, addChildren needs
-   no more nesting than there are identities not yet collected -- cycles included *)
+(* the reason: over any Values table whose entries are among ks, addChildren needs no more nesting than there
+   are identities not yet collected -- cycles included *)
 Theorem C11_closure_fuel : forall (V : vals) (ks : list key),
   (forall x c, In c (V x) -> In c ks) ->
   forall f r ids, NoDup ids -> incl ids ks -> In r ks -> length ks - length ids < f ->
@@ -42,113 +47,140 @@ Proof. exact close_spec. Qed.
 (* ------------------------------------------------------------------ the Values lists *)
 
 (* T1 (a): no identity is listed twice *)
-Theorem C11_no_duplicates : forall sc om o2 o3 r, is_oracle o2 -> is_oracle o3 ->
-  resolve_identities om o2 o3 sc = Some r -> forall b, NoDup (r_values r b).
+Theorem C11_no_duplicates : forall sc o2 o3 r, is_oracle o2 -> is_oracle o3 ->
+  resolve_identities o2 o3 sc = Some r -> forall b, NoDup (r_values r b).
 Proof. exact values_nodup. Qed.
 
-(* T1 (b): Values b is exactly the set of identities that reach b through one or more base statements *)
-Theorem C11_exact : forall sc om o2 o3 r, is_oracle o2 -> is_oracle o3 ->
-  resolve_identities om o2 o3 sc = Some r ->
-  forall b i, In i (r_values r b) <-> derived sc (dict_get (r_dict r)) b i.
+(* T1 (b): Values b is exactly the set of declarations that reach b through one or more base statements *)
+Theorem C11_exact : forall sc o2 o3 r, is_oracle o2 -> is_oracle o3 ->
+  resolve_identities o2 o3 sc = Some r ->
+  forall b x, In x (r_values r b) <-> derived sc (dict_get (r_dict r)) (owners_get (r_owners r)) b x.
 Proof. exact values_exact. Qed.
 
 (* T1 (c): never the identity itself, unless it is derived from itself (which T3 reports) *)
-Theorem C11_never_itself : forall sc om o2 o3 r, is_oracle o2 -> is_oracle o3 ->
-  resolve_identities om o2 o3 sc = Some r ->
-  forall b, ~ derived sc (dict_get (r_dict r)) b b -> ~ In b (r_values r b).
+Theorem C11_never_itself : forall sc o2 o3 r, is_oracle o2 -> is_oracle o3 ->
+  resolve_identities o2 o3 sc = Some r ->
+  forall b, ~ derived sc (dict_get (r_dict r)) (owners_get (r_owners r)) b b -> ~ In b (r_values r b).
 Proof. exact values_not_self. Qed.
 
-Theorem C11_lists_identities : forall sc om o2 o3 r, is_oracle o2 -> is_oracle o3 ->
-  resolve_identities om o2 o3 sc = Some r ->
-  forall b i, In i (r_values r b) -> defined (dict_get (r_dict r)) i /\ defined (dict_get (r_dict r)) b.
+Theorem C11_lists_identities : forall sc o2 o3 r, is_oracle o2 -> is_oracle o3 ->
+  resolve_identities o2 o3 sc = Some r ->
+  forall b x, In x (r_values r b) ->
+    (exists e, declares (dict_get (r_dict r)) x e) /\ (exists e, declares (dict_get (r_dict r)) b e).
 Proof. exact values_are_identities. Qed.
 
-(* T1 (d): strictly increasing by (identity name, module-qualified name), bytewise *)
-Theorem C11_sorted : forall sc om o2 o3 r, is_oracle o2 -> is_oracle o3 ->
-  resolve_identities om o2 o3 sc = Some r ->
-  forall b, sorted_keys (dict_get (r_dict r)) (r_values r b).
+(* T1 (d): strictly increasing by (identity name, module-qualified name, full name of the declaring
+   (sub)module), bytewise *)
+Theorem C11_sorted : forall sc o2 o3 r, is_oracle o2 -> is_oracle o3 ->
+  resolve_identities o2 o3 sc = Some r ->
+  forall b, sorted_keys sc (decl_get (r_dict r)) (r_values r b).
 Proof. exact values_sorted. Qed.
 
 (* a strictly increasing list is determined by its set: (b) and (d) fix the list *)
-Theorem C11_sorted_unique : forall g l1 l2, sorted_keys g l1 -> sorted_keys g l2 ->
+Theorem C11_sorted_unique : forall sc dl l1 l2, sorted_keys sc dl l1 -> sorted_keys sc dl l2 ->
   (forall x, In x l1 <-> In x l2) -> l1 = l2.
 Proof. exact strict_sorted_unique. Qed.
 
-(* T2: the dictionary holds exactly the identity statements of the loaded modules and of the submodules
-   reachable from them through include statements, under the owner's name -- whatever order ms.Modules
-   is walked in (for a schema in which no two statements compete for a key) *)
-Theorem C11_dictionary : forall sc om o2 o3 r, is_oracle o2 -> is_oracle o3 ->
-  resolve_identities om o2 o3 sc = Some r -> is_oracle om -> consistent sc ->
-  forall k e, dict_get (r_dict r) k = Some e <-> declared sc k e.
-Proof. exact dictionary_spec. Qed.
-
-(* without the consistency assumption: everything in the dictionary is a declared identity, and every
-   declared identity's key is in the dictionary *)
-Theorem C11_dictionary_sound : forall sc om o2 o3 r, is_oracle o2 -> is_oracle o3 ->
-  resolve_identities om o2 o3 sc = Some r -> is_oracle om ->
-  forall k e, dict_get (r_dict r) k = Some e -> declared sc k e.
-Proof. exact dictionary_sound. Qed.
-
-Theorem C11_dictionary_complete : forall sc om o2 o3 r, is_oracle o2 -> is_oracle o3 ->
-  resolve_identities om o2 o3 sc = Some r -> is_oracle om ->
-  forall k e, declared sc k e -> defined (dict_get (r_dict r)) k.
-Proof. exact dictionary_complete. Qed.
-
-(* wholeModule of a loaded module: the module and everything reachable through resolved includes
-   (nested includes are hoisted) *)
-Theorem C11_whole_module : forall sc md, loaded sc md ->
-  forall m, In m (whole_module sc md) <-> part_of sc md m.
-Proof. exact whole_module_spec. Qed.
-
 (* T1 (d'): the order -- the whole result -- is a function of the schema alone: any two choices of the
-   three map iteration orders give the same dictionary, the same Values list for every identity, and
-   agree on whether an error is reported *)
-Theorem C11_schema_alone : forall sc om o2 o3 om' o2' o3' r r',
-  is_oracle om -> is_oracle o2 -> is_oracle o3 -> is_oracle om' -> is_oracle o2' -> is_oracle o3' ->
-  consistent sc ->
-  resolve_identities om o2 o3 sc = Some r -> resolve_identities om' o2' o3' sc = Some r' ->
-  (forall k, dict_get (r_dict r) k = dict_get (r_dict r') k) /\
+   map iteration orders give the same dictionary and owners, the same Values list for every declaration,
+   and agree on whether an error is reported *)
+Theorem C11_schema_alone : forall sc o2 o3 o2' o3' r r',
+  is_oracle o2 -> is_oracle o3 -> is_oracle o2' -> is_oracle o3' ->
+  resolve_identities o2 o3 sc = Some r -> resolve_identities o2' o3' sc = Some r' ->
+  r_dict r = r_dict r' /\ r_owners r = r_owners r' /\
   (forall b, r_values r b = r_values r' b) /\
   (r_errors r = [] <-> r_errors r' = []).
 Proof. exact oracle_independent. Qed.
 
+(* ------------------------------------------------------------------ which identities, under which keys *)
+
+(* T2: for a schema Modules.add accepts, the dictionary holds exactly the identity statements of the loaded
+   module revisions and of the submodules reachable from them through include statements, each under every
+   revision whose whole module it is part of (for a schema in which no two statements compete for a key) *)
+Theorem C11_dictionary : forall sc o2 o3 r, wf_schema sc -> is_oracle o2 -> is_oracle o3 ->
+  resolve_identities o2 o3 sc = Some r -> consistent sc ->
+  forall k e, dict_get (r_dict r) k = Some e <-> filed sc k e.
+Proof. exact dictionary_spec. Qed.
+
+(* without the consistency assumption: everything in the dictionary is a filed declaration, and every key
+   under which something is filed is in the dictionary *)
+Theorem C11_dictionary_sound : forall sc o2 o3 r, wf_schema sc -> is_oracle o2 -> is_oracle o3 ->
+  resolve_identities o2 o3 sc = Some r ->
+  forall k e, dict_get (r_dict r) k = Some e -> filed sc k e.
+Proof. exact dictionary_sound. Qed.
+
+Theorem C11_dictionary_complete : forall sc o2 o3 r, wf_schema sc -> is_oracle o2 -> is_oracle o3 ->
+  resolve_identities o2 o3 sc = Some r ->
+  forall k e, filed sc k e -> exists e', dict_get (r_dict r) k = Some e' /\ filed sc k e'.
+Proof. exact dictionary_complete. Qed.
+
+(* the module revisions a visible (sub)module's identities are filed under -- the list identities.find searches
+   for a name without prefix -- are the owners for the revisions whose whole module it is part of (the order of
+   the list is the model's: the order in which sortedModules visits them) *)
+Theorem C11_owners : forall sc o2 o3 r, wf_schema sc -> is_oracle o2 -> is_oracle o3 ->
+  resolve_identities o2 o3 sc = Some r ->
+  forall m, visible sc m -> forall w, In w (owners_get (r_owners r) m) <-> owner_of sc m w.
+Proof. exact owners_run. Qed.
+
+(* every value of ms.Modules is visited exactly as a value: the bare name and the name@revision key of the
+   latest revision do not make it two *)
+Theorem C11_loaded_modules : forall sc, wf_schema sc -> forall sub md,
+  In md (sorted_modules sc sub) <-> exists k, reg_get sc sub k = Some md.
+Proof. exact sorted_modules_spec. Qed.
+
+(* wholeModule of a loaded module revision: it and everything reachable through resolved includes (nested
+   includes are hoisted) *)
+Theorem C11_whole_module : forall sc, wf_schema sc -> forall md, loaded sc false md ->
+  forall m, In m (whole_module sc md) <-> part_of sc md m.
+Proof. exact whole_module_spec. Qed.
+
 (* ------------------------------------------------------------------ identityref *)
 
-(* T4: an identityref type statement inside (sub)module n points at the identity its base argument
-   names there; it keeps that identity, so the values it sees are r_values r b: by C11_exact,
-   C11_sorted the same list *)
-Theorem C11_identityref : forall sc r sub n s b,
-  identityref_base sc (r_dict r) sub n s = Some b <->
-  exists md, find_mod sc sub n = Some md /\ resolves sc (dict_get (r_dict r)) md s b.
+(* T4: an identityref type statement inside the (sub)module revision with that full name points at the
+   declaration its base argument names there; it keeps that identity, so the values it sees are
+   r_values r b: by C11_exact, C11_sorted the same list *)
+Theorem C11_identityref : forall sc r sub fulln s b,
+  identityref_base sc r sub fulln s = Some b <->
+  exists md e, find (fun m => Bool.eqb (m_sub m) sub && (full_name m =? fulln)) sc = Some md /\
+               resolves sc (dict_get (r_dict r)) (owners_get (r_owners r)) md s e /\ b = did_of e.
 Proof. exact identityref_spec. Qed.
 
 (* ------------------------------------------------------------------ errors *)
 
-(* T3 (e): no error is reported exactly when every followed include/import names something loaded,
+(* T3 (e): no error is reported exactly when every followed include/import is bound to something loaded,
    every base resolves, and no identity is derived from itself *)
-Theorem C11_no_error_iff : forall sc om o2 o3 r, is_oracle o2 -> is_oracle o3 ->
-  resolve_identities om o2 o3 sc = Some r ->
+Theorem C11_no_error_iff : forall sc o2 o3 r, wf_schema sc -> is_oracle o2 -> is_oracle o3 ->
+  resolve_identities o2 o3 sc = Some r ->
   (r_errors r = [] <->
-   links_ok sc /\ all_resolve sc (dict_get (r_dict r)) /\ acyclic sc (dict_get (r_dict r))).
+   links_ok sc /\ all_resolve sc (dict_get (r_dict r)) (owners_get (r_owners r)) /\
+   acyclic sc (dict_get (r_dict r)) (owners_get (r_owners r))).
+Proof. exact errors_none_iff'. Qed.
+
+(* the same without the assumption on the schema, the link errors as the model computes them *)
+Theorem C11_no_error_iff_any : forall sc o2 o3 r, is_oracle o2 -> is_oracle o3 ->
+  resolve_identities o2 o3 sc = Some r ->
+  (r_errors r = [] <->
+   link_errors sc = [] /\ all_resolve sc (dict_get (r_dict r)) (owners_get (r_owners r)) /\
+   acyclic sc (dict_get (r_dict r)) (owners_get (r_owners r))).
 Proof. exact errors_none_iff. Qed.
 
-Theorem C11_undefined_base_is_error : forall sc om o2 o3 r, is_oracle o2 -> is_oracle o3 ->
-  resolve_identities om o2 o3 sc = Some r ->
-  forall i md id s, dict_get (r_dict r) i = Some (md, id) -> In s (i_bases id) ->
-    (~ exists b, resolves sc (dict_get (r_dict r)) md s b) ->
-    In (ErrBase i s) (r_errors r).
+Theorem C11_undefined_base_is_error : forall sc o2 o3 r, is_oracle o2 -> is_oracle o3 ->
+  resolve_identities o2 o3 sc = Some r ->
+  forall k e s, dict_get (r_dict r) k = Some e -> In s (i_bases (snd e)) ->
+    (~ exists eb, resolves sc (dict_get (r_dict r)) (owners_get (r_owners r)) (fst e) s eb) ->
+    In (ErrBase (did_of e) s) (r_errors r).
 Proof. exact error_undefined_base. Qed.
 
-Theorem C11_cycle_is_error : forall sc om o2 o3 r, is_oracle o2 -> is_oracle o3 ->
-  resolve_identities om o2 o3 sc = Some r ->
-  forall i, derived sc (dict_get (r_dict r)) i i -> In (ErrCycle i) (r_errors r).
+Theorem C11_cycle_is_error : forall sc o2 o3 r, is_oracle o2 -> is_oracle o3 ->
+  resolve_identities o2 o3 sc = Some r ->
+  forall x, derived sc (dict_get (r_dict r)) (owners_get (r_owners r)) x x -> In (ErrCycle x) (r_errors r).
 Proof. exact error_cycle. Qed.
 
-Theorem C11_missing_link_is_error : forall sc om o2 o3 r, is_oracle o2 -> is_oracle o3 ->
-  resolve_identities om o2 o3 sc = Some r ->
+Theorem C11_missing_link_is_error : forall sc o2 o3 r, wf_schema sc -> is_oracle o2 -> is_oracle o3 ->
+  resolve_identities o2 o3 sc = Some r ->
   forall m n, visible sc m ->
-    (In n (m_includes m) /\ find_mod sc true n = None) \/
-    (exists p, In (p, n) (m_imports m) /\ find_mod sc false n = None) ->
+    (exists dt, In (n, dt) (m_includes m) /\ find_module sc true n dt = None) \/
+    (exists p dt, In (p, n, dt) (m_imports m) /\ find_module sc false n dt = None) ->
     In (ErrLink (m_name m) n) (r_errors r).
 Proof. exact error_missing_link. Qed.
 
@@ -159,71 +191,112 @@ Proof. exact ord_id_oracle. Qed.
 Example C11_oracle_rev : is_oracle ord_rev.
 Proof. exact ord_rev_oracle. Qed.
 
+Definition vals_of (o : option result) (ks : list key) : option (list (list key) * list err) :=
+  match o with Some r => Some (map (r_values r) ks, r_errors r) | None => None end.
+
 (* module a { prefix pa; include s1; identity top; identity l { base top; } }
    submodule s1 { belongs-to a { prefix pa; } include s2; identity r { base pa:top; } }
    submodule s2 { belongs-to a { prefix zz; } identity bot { base zz:l; base r; } }      (nested include)
    module b { prefix pb; import a { prefix x; } identity bot { base x:bot; } identity l { base x:top; } } *)
-Definition ex_a := Module "a" false "pa" "" [] ["s1"] [Ident "top" []; Ident "l" ["top"]].
-Definition ex_s1 := Module "s1" true "pa" "a" [] ["s2"] [Ident "r" ["pa:top"]].
-Definition ex_s2 := Module "s2" true "zz" "a" [] [] [Ident "bot" ["zz:l"; "r"]].
-Definition ex_b := Module "b" false "pb" "" [("x", "a")] [] [Ident "bot" ["x:bot"]; Ident "l" ["x:top"]].
+Definition ex_a := Module "a" false "" "pa" "" [] [("s1", "")] [Ident "top" []; Ident "l" ["top"]].
+Definition ex_s1 := Module "s1" true "" "pa" "a" [] [("s2", "")] [Ident "r" ["pa:top"]].
+Definition ex_s2 := Module "s2" true "" "zz" "a" [] [] [Ident "bot" ["zz:l"; "r"]].
+Definition ex_b := Module "b" false "" "pb" "" [("x", "a", "")] [] [Ident "bot" ["x:bot"]; Ident "l" ["x:top"]].
 Definition ex_schema : schema := [ex_s2; ex_b; ex_a; ex_s1].
-
-Definition vals_of (o : option result) (ks : list key) : option (list (list key) * list err) :=
-  match o with Some r => Some (map (r_values r) ks, r_errors r) | None => None end.
 
 (* a diamond (bot -> l, r -> top), equal names in two modules, a nested include; two different sets of
    iteration orders *)
 Example C11_ex_values :
-  vals_of (resolve_identities ord_id ord_id ord_id ex_schema) ["a:top"; "a:l"; "a:r"; "a:bot"; "b:bot"; "b:l"] =
-  Some ([["a:bot"; "b:bot"; "a:l"; "b:l"; "a:r"]; ["a:bot"; "b:bot"]; ["a:bot"; "b:bot"]; ["b:bot"]; []; []], []).
+  vals_of (resolve_identities ord_id ord_id ex_schema) ["a:top"; "a:l"; "s1:r"; "s2:bot"; "b:bot"; "b:l"] =
+  Some ([["s2:bot"; "b:bot"; "a:l"; "b:l"; "s1:r"]; ["s2:bot"; "b:bot"]; ["s2:bot"; "b:bot"]; ["b:bot"]; []; []], []).
 Proof. vm_compute. reflexivity. Qed.
 
 Example C11_ex_values_other_order :
-  vals_of (resolve_identities ord_rev ord_rev (oracle 2) ex_schema) ["a:top"; "a:l"; "a:r"; "a:bot"; "b:bot"; "b:l"] =
-  Some ([["a:bot"; "b:bot"; "a:l"; "b:l"; "a:r"]; ["a:bot"; "b:bot"]; ["a:bot"; "b:bot"]; ["b:bot"]; []; []], []).
+  vals_of (resolve_identities ord_rev (oracle 2) ex_schema) ["a:top"; "a:l"; "s1:r"; "s2:bot"; "b:bot"; "b:l"] =
+  Some ([["s2:bot"; "b:bot"; "a:l"; "b:l"; "s1:r"]; ["s2:bot"; "b:bot"]; ["s2:bot"; "b:bot"]; ["b:bot"]; []; []], []).
 Proof. vm_compute. reflexivity. Qed.
 
-(* the hypothesis of C11_schema_alone / C11_dictionary is satisfiable *)
-Example C11_ex_consistent : consistent ex_schema.
+(* the hypotheses of C11_dictionary are satisfiable *)
+Example C11_ex_wf : wf_schema ex_schema.
 Proof.
-  apply consistent_nodup. vm_compute.
-  repeat (constructor; [simpl; intuition discriminate|]). constructor.
+  apply wf_nodup. vm_compute. repeat (constructor; [simpl; intuition discriminate|]). constructor.
 Qed.
 
+Example C11_ex_dict_keys :
+  match resolve_identities ord_id ord_id ex_schema with
+  | Some r => dict_keys (r_dict r) = ["a:top"; "a:l"; "a:r"; "a:bot"; "b:bot"; "b:l"]
+  | None => False
+  end.
+Proof. vm_compute. reflexivity. Qed.
+
+(* two loaded revisions of module m, a submodule s included by both, a user with an import of the latest
+   revision, one pinned to the old revision and one pinned to a revision that is not loaded:
+   module m { revision 2021-06-15; prefix mm; include s; identity b; identity d { base b; } }
+   module m { revision 2020-01-01; prefix m; include s; identity b; identity c { base b; } }
+   submodule s { belongs-to m { prefix m; } identity x { base b; } }
+   module u { import m { prefix new; } import m { prefix old; revision-date 2020-01-01; }
+              import m { prefix gone; revision-date 1999-09-09; }
+              identity un { base new:b; } identity uo { base old:b; } identity ug { base gone:d; }
+              identity ux { base old:x; } } *)
+Definition ex_m1 := Module "m" false "2021-06-15" "mm" "" [] [("s", "")] [Ident "b" []; Ident "d" ["b"]].
+Definition ex_m0 := Module "m" false "2020-01-01" "m" "" [] [("s", "")] [Ident "b" []; Ident "c" ["b"]].
+Definition ex_s := Module "s" true "" "m" "m" [] [] [Ident "x" ["b"]].
+Definition ex_u := Module "u" false "" "u" ""
+  [("new", "m", ""); ("old", "m", "2020-01-01"); ("gone", "m", "1999-09-09")] []
+  [Ident "un" ["new:b"]; Ident "uo" ["old:b"]; Ident "ug" ["gone:d"]; Ident "ux" ["old:x"]].
+Definition ex_revs : schema := [ex_m1; ex_u; ex_m0; ex_s].
+
+Example C11_ex_revisions :
+  vals_of (resolve_identities ord_id ord_rev ex_revs)
+          ["m@2020-01-01:b"; "m@2021-06-15:b"; "m@2021-06-15:d"; "s:x"] =
+  Some ([["m@2020-01-01:c"; "u:uo"]; ["m@2021-06-15:d"; "u:ug"; "u:un"; "u:ux"; "s:x"]; ["u:ug"]; ["u:ux"]], []).
+Proof. vm_compute. reflexivity. Qed.
+
+(* the submodule's identity is filed under both revisions *)
+Example C11_ex_revisions_keys :
+  match resolve_identities ord_id ord_id ex_revs with
+  | Some r => map (fun k => option_map did_of (dict_get (r_dict r) k)) ["m@2020-01-01:x"; "m@2021-06-15:x"; "m:x"] =
+              [Some "s:x"; Some "s:x"; None] /\
+              map full_name (owners_get (r_owners r) ex_s) = ["m@2021-06-15"; "m@2020-01-01"]
+  | None => False
+  end.
+Proof. vm_compute. split; reflexivity. Qed.
+
 Example C11_ex_identityref :
-  match resolve_identities ord_id ord_id ord_id ex_schema with
-  | Some r => identityref_base ex_schema (r_dict r) false "b" "x:top" = Some "a:top" /\
-              identityref_base ex_schema (r_dict r) true "s2" "r" = Some "a:r" /\
-              identityref_base ex_schema (r_dict r) false "b" "top" = None
+  match resolve_identities ord_id ord_id ex_revs with
+  | Some r => identityref_base ex_revs r false "u" "old:b" = Some "m@2020-01-01:b" /\
+              identityref_base ex_revs r false "u" "new:b" = Some "m@2021-06-15:b" /\
+              identityref_base ex_revs r false "m@2020-01-01" "b" = Some "m@2020-01-01:b" /\
+              identityref_base ex_revs r true "s" "b" = Some "m@2021-06-15:b" /\
+              identityref_base ex_revs r false "u" "b" = None
   | None => False
   end.
 Proof. vm_compute. repeat split. Qed.
 
 (* derivation cycles and an undefined base are reported (and the resolver terminates on them) *)
 Example C11_ex_self :
-  vals_of (resolve_identities ord_id ord_id ord_id [Module "a" false "p" "" [] [] [Ident "x" ["x"]]]) ["a:x"] =
+  vals_of (resolve_identities ord_id ord_id [Module "a" false "" "p" "" [] [] [Ident "x" ["x"]]]) ["a:x"] =
   Some ([["a:x"]], [ErrCycle "a:x"]).
 Proof. vm_compute. reflexivity. Qed.
 
 Example C11_ex_cycle :
-  vals_of (resolve_identities ord_id ord_id ord_rev
-             [Module "a" false "p" "" [] [] [Ident "x" ["y"]; Ident "y" ["p:x"]; Ident "z" ["x"]]])
+  vals_of (resolve_identities ord_id ord_rev
+             [Module "a" false "" "p" "" [] [] [Ident "x" ["y"]; Ident "y" ["p:x"]; Ident "z" ["x"]]])
           ["a:x"; "a:y"; "a:z"] =
   Some ([["a:x"; "a:y"; "a:z"]; ["a:x"; "a:y"; "a:z"]; []], [ErrCycle "a:y"; ErrCycle "a:x"]).
 Proof. vm_compute. reflexivity. Qed.
 
 Example C11_ex_dangling :
-  vals_of (resolve_identities ord_id ord_id ord_id
-             [Module "a" false "p" "" [("q", "b")] [] [Ident "x" ["q:nosuch"; "zz:x"; "y"]];
-              Module "b" false "p" "" [] [] [Ident "x" []]]) ["a:x"; "b:x"] =
+  vals_of (resolve_identities ord_id ord_id
+             [Module "a" false "" "p" "" [("q", "b", "")] [] [Ident "x" ["q:nosuch"; "zz:x"; "y"]];
+              Module "b" false "" "p" "" [] [] [Ident "x" []]]) ["a:x"; "b:x"] =
   Some ([[]; []], [ErrBase "a:x" "q:nosuch"; ErrBase "a:x" "zz:x"; ErrBase "a:x" "y"]).
 Proof. vm_compute. reflexivity. Qed.
 
 (* an identity of a submodule nobody includes is not in the dictionary: a base naming it is undefined *)
 Example C11_ex_not_included :
-  vals_of (resolve_identities ord_id ord_id ord_id
-             [Module "a" false "p" "" [] [] [Ident "x" ["y"]];
-              Module "s" true "p" "a" [] [] [Ident "y" []]]) ["a:x"; "a:y"] =
+  vals_of (resolve_identities ord_id ord_id
+             [Module "a" false "" "p" "" [] [] [Ident "x" ["y"]];
+              Module "s" true "" "p" "a" [] [] [Ident "y" []]]) ["a:x"; "s:y"] =
   Some ([[]; []], [ErrBase "a:x" "y"]).
 Proof. vm_compute. reflexivity. Qed.
